@@ -253,6 +253,7 @@ func runC01(c *Ctx) {
 	// disagrees cannot read back what the writer stored (shared with C02, which needs it for key determinism)
 	checkOffsetConvention(c, "offset-convention")
 	checkReadAccounting(c, "read.bytes-accounted")
+	checkEOFByIdentity(c, "read.eof-by-identity")
 }
 
 // checkWriterHandoff: ownership of the buffer given to `go pFlush`.
@@ -1281,6 +1282,7 @@ func runC03(c *Ctx) {
 	_ = n
 	checkVerifyAlwaysHashes(c, "mismatch-is-error.always-hashes")
 	checkWriteToWorkerExclusive(c, "verify-coverage.writeto-error-exclusive")
+	checkEOFByIdentity(c, "errors-surface.eof-by-identity")
 }
 
 func fmtConds(conds []string) string {
